@@ -111,6 +111,8 @@ type Machine struct {
 	// Dirty: updates/deletes since the last trie commit. Unwritten: a trie commit's batch not yet written.
 	Dirty bool
 	Fail  func(string, ...any)
+	// RT, when set, lets Update draw weights independently of values.
+	RT *rapid.T
 }
 
 func New(db *memkv.Store, fail func(string, ...any)) *Machine {
@@ -140,9 +142,37 @@ func Entries(model map[string]refwmpt.Entry) []refwmpt.Entry {
 
 func short(k []byte) string { return fmt.Sprintf("%x..%x", k[:2], k[30:]) }
 
-// Update sets key to value (weight by rule) and checks the running total.
+// GenWeight draws a weight independent of the value: mostly 1..9, sometimes wide (all eight bytes of the encoding in use).
+func GenWeight(rt *rapid.T) uint64 {
+	if gen.Chance(rt, 8, "widew") {
+		return uint64(gen.Uniform(rt, 1, 9, "ww")) << uint(8*gen.Uniform(rt, 1, 5, "wshift"))
+	}
+	return uint64(gen.Uniform(rt, 1, 9, "w"))
+}
+
+// Update sets key to value. With a generator attached (RT) the weight is drawn independently of the value two times
+// out of three; otherwise it follows the rule WeightOf.
 func (m *Machine) Update(key, value []byte) {
 	w := WeightOf(value)
+	if m.RT != nil && gen.Chance(m.RT, 66, "drawweight") {
+		w = GenWeight(m.RT)
+	}
+	m.UpdateW(key, value, w)
+}
+
+// Rewrite stores an entry again exactly as it is (same value, same weight).
+func (m *Machine) Rewrite(e refwmpt.Entry) {
+	m.UpdateW(e.Key, append([]byte(nil), e.Value...), e.Weight)
+}
+
+// Reweigh changes only the weight of a live entry (the value bytes stay the same).
+func (m *Machine) Reweigh(e refwmpt.Entry, w uint64) {
+	m.Logf("(weight only)")
+	m.UpdateW(e.Key, append([]byte(nil), e.Value...), w)
+}
+
+// UpdateW sets key to (value, w) and checks the running total.
+func (m *Machine) UpdateW(key, value []byte, w uint64) {
 	m.Logf("upd %s=%x(w%d)", short(key), value, w)
 	if err := m.T.Update(key, value, w); err != nil {
 		m.Fail("Update(%x): %v", key, err)
@@ -277,4 +307,40 @@ func Reopened(db *memkv.Store, root []byte, w uint64) *wmpt.WeightedMerkleTrie {
 		return wmpt.New(nil, db)
 	}
 	return wmpt.New(wmpt.NewHashNode(append([]byte(nil), root...), w), db)
+}
+
+// Churn takes a built trie through 0..2 further rounds of changes (new values, weight-only updates, deletes,
+// re-adds from pool) so that the state handed to a check was reached by a history and not only by inserts. Hashes are
+// computed before every round (memory-only tries; reading hashes of a dirty stored trie is a listed C11 finding), and a
+// stored trie is committed at a drawn collapse level after every round. At least one entry stays live. Returns the
+// number of operations applied.
+func (m *Machine) Churn(rt *rapid.T, pool [][]byte, counter *int, label string) int {
+	n := 0
+	for r := gen.Uniform(rt, 0, 2, label+"rounds"); r > 0; r-- {
+		if m.DB == nil {
+			_ = m.T.Root()
+		}
+		for i := gen.Uniform(rt, 1, 4, label+"ops"); i > 0; i-- {
+			es := Entries(m.Model)
+			switch k := gen.Pct(rt, label+"op"); {
+			case k < 30 && len(es) > 1:
+				m.Delete(gen.Pick(rt, es, label+"del").Key)
+			case k < 55 && len(es) > 0:
+				e := gen.Pick(rt, es, label+"rw")
+				w := GenWeight(rt)
+				if w == e.Weight {
+					w++
+				}
+				m.Reweigh(e, w)
+			default:
+				ki := gen.Uniform(rt, 0, len(pool)-1, label+"ki")
+				m.Update(pool[ki], GenValue(rt, ki, counter, true))
+			}
+			n++
+		}
+		if m.DB != nil {
+			m.Commit(gen.Pick(rt, []int{0, 1, 2, 3, 64}, label+"lvl"))
+		}
+	}
+	return n
 }
